@@ -135,9 +135,26 @@ fn gen_flood(t: &Tape, plan: &mut T2Plan, known: &[u32], next_id: &mut u32) {
     let n = *t.pick(Lane::Peer, &[300u32, 50, 1000, 3000]);
     if plan.e_client {
         // server -> client floods answer E's first request
-        let which = t.draw(Lane::Peer, 4);
+        let which = t.draw(Lane::Peer, 5);
         let mut frames: Vec<RawFrame> = vec![];
         match which {
+            4 => {
+                // promises are cheap; their responses open the streams: more responses than the
+                // client's MAX_CONCURRENT_STREAMS allows must be refused, not crash the client
+                plan.flood = Some("push-responses");
+                plan.label = "flood:push-responses".into();
+                let k = (n / 20).clamp(2, 60);
+                for i in 0..k {
+                    let pid = 2 + 2 * i;
+                    let mut p = pid.to_be_bytes().to_vec();
+                    p.extend_from_slice(&req_block_small());
+                    frames.push(RawFrame::new(PUSH_PROMISE, F_END_HEADERS, 1, p));
+                }
+                for i in 0..k {
+                    // :status 200, stream left open
+                    frames.push(RawFrame::new(HEADERS, F_END_HEADERS, 2 + 2 * i, vec![0x88]));
+                }
+            }
             0 => {
                 plan.flood = Some("push-promise");
                 plan.label = "flood:push-promise".into();
@@ -186,7 +203,7 @@ fn gen_flood(t: &Tape, plan: &mut T2Plan, known: &[u32], next_id: &mut u32) {
             }
         }
         plan.script.push(PeerOp::Barrier);
-        if which <= 1 {
+        if which <= 1 || which == 4 {
             // the first request is never answered: the flood happens on its open stream
             if let Some(r) = plan.resp_plans.first_mut() {
                 r.delay = u32::MAX / 2;
